@@ -93,6 +93,7 @@ class Run:
     self.ended = [None] * n
     self.study_of_worker = [None] * n
     self.errors = []
+    self.fed_vals = []         # (study object, trial id, reward argument) at the same statement
     self.fed_log = []          # (study object, trial id) each time the statement `self._num_feedbacks += 1` of the main algorithm ran
     self.cur_fb = [None] * n
     gnum = [w['group'] for w in cfg['workers']]
@@ -152,6 +153,7 @@ class Run:
          linecache.getline(frame.f_code.co_filename, frame.f_lineno).strip() == 'self._num_feedbacks += 1':
         fb = self.cur_fb[w.idx]
         self.fed_log.append((fb._study, fb.id))
+        self.fed_vals.append((fb._study, fb.id, frame.f_locals.get('reward')))   # the value handed to algorithm.feedback
     self.ctl = core.Controller([mk(i) for i in range(n)], strategy_fn, gate_of, lm.accept_code, acquire_label=lm.acquire_label, step_timeout=60.0)
     self.ctl.after_gate = after_gate
     self.ctl.run()
@@ -202,14 +204,15 @@ class Run:
     from pyglove.core.tuning import local_backend
     reg = local_backend._in_memory_results.get(self.name)
     a = self.algo
+    fedv = [[sidx[id(s)], tid, int(r) if isinstance(r, (int, float)) else [-1]] for (s, tid, r) in self.fed_vals]
     if is_evo and hasattr(a, '_population'):
       ig = a._init_population_generator
       algo = [1 if a.dna_spec is not None else 0, a.num_proposals, a.num_feedbacks, [[sidx[id(s)], tid] for (s, tid) in self.fed_log],
               [edna(d) for d in a._pending_proposals], 1 if a._population_initialized else 0, [edna(d) for d in a._population], a.num_generations,
-              env.algo_locks, ig.num_proposals, ig.num_feedbacks, env.algo_locks]
+              env.algo_locks, ig.num_proposals, ig.num_feedbacks, env.algo_locks, fedv]
     else:
       algo = [1 if a.dna_spec is not None else 0, getattr(a, '_num_proposals', 0), getattr(a, '_num_feedbacks', 0), [[sidx[id(s)], tid] for (s, tid) in self.fed_log],
-              [], 0, [], 0, 0, 0, 0, 0]
+              [], 0, [], 0, 0, 0, 0, 0, fedv]
     threads = []
     for i, w in enumerate(self.ctl.workers):
       s = self.study_of_worker[i]
@@ -301,6 +304,15 @@ def oracle(run):
       if fed[t.id] != want:
         hit('C16/feedback-once/done-or-skip/%s' % ('reported-%d-times' % fed[t.id] if fed[t.id] > 1 else 'not-reported'),
             'trial %d (status %s, infeasible %s) was reported to the algorithm %d times' % (t.id, t.status, t.infeasible, fed[t.id]))
+    # the value that was fed back is the trial's final measurement (and the trial's outcome was not rewritten afterwards)
+    for (s2, tid, r) in run.fed_vals:
+      if s2 is not s: continue
+      t = next((x for x in s._trials if x.id == tid), None)
+      fin = None if t is None else t.final_measurement
+      if t is None or fin is None or fin.reward != r or t.infeasible or t.status != 'COMPLETED':
+        hit('C16/feedback-value/done-or-skip/reward-differs',
+            'trial %s was reported to the algorithm with reward %r but ends as status %s, infeasible %s, final reward %s'
+            % (tid, r, getattr(t, 'status', None), getattr(t, 'infeasible', None), None if fin is None else fin.reward))
     # bookkeeping at quiescence
     comp = sum(1 for t in s._trials if t.status == 'COMPLETED'); pend = sum(1 for t in s._trials if t.status == 'PENDING')
     cnt = dict(s._num_trials_by_status)
